@@ -74,6 +74,9 @@ def _analyze(Xv):
     return DeficiencyAnalyzer(Xv).compute_crn_deficiency()
 
 
+_SUMMARY_KEYS = ("n_species", "n_reactions", "n_complexes", "n_linkage_classes", "stoich_rank", "deficiency", "weakly_reversible")
+
+
 def _obs(a):
     """Everything the analyzer object currently stores / answers."""
     import networkx as nx
@@ -84,6 +87,11 @@ def _obs(a):
     one = a.deficiency_one_structural
     assert d["deficiency"] == su.deficiency and one["deficiency"] == su.deficiency
     assert list(one["linkage_deficiencies"]) == list(a.linkage_deficiencies) == list(d["linkage_deficiencies"])
+    # the two observation points (summary dataclass, as_dict()) must tell ONE story, field by field
+    for k in _SUMMARY_KEYS:
+        assert d[k] == getattr(su, k), "as_dict()[%r] = %r, summary.%s = %r" % (k, d[k], k, getattr(su, k))
+    assert dict(d["deficiency_one_structural"]) == dict(one)
+    assert len(a._complexes) == su.n_complexes == CG.number_of_nodes() and len(classes) == su.n_linkage_classes
     return [0,
             [list(map(int, c)) for c in a._complexes],
             SET([[int(u), int(v)] for u, v in CG.edges()]),
@@ -347,6 +355,13 @@ def _oracle_on(a, H, case):
         bad("deficiency", "deficiency=%r, expected %d - %d - %d = %d" % (su.deficiency, len(want), len(classes), rk, delta))
     if su.deficiency < 0:
         bad("deficiency-nonneg", "negative deficiency %d" % su.deficiency)
+    dd = a.as_dict()
+    for k in _SUMMARY_KEYS:
+        if dd.get(k) != getattr(su, k):
+            bad("as-dict", "as_dict()[%r] = %r but summary.%s = %r" % (k, dd.get(k), k, getattr(su, k)))
+            break
+    if sorted(int(x) for x in dd.get("linkage_deficiencies", [])) != sorted(int(x) for x in (a.linkage_deficiencies or [])):
+        bad("as-dict", "as_dict()['linkage_deficiencies'] differs from the linkage_deficiencies property")
     if (su.n_species, su.n_reactions) != (len(species), len(edges)):
         bad("counts", "n_species/n_reactions %r, expected %r" % ((su.n_species, su.n_reactions), (len(species), len(edges))))
     # --- linkage-class deficiencies
